@@ -816,4 +816,81 @@ Section Life.
     destruct ab; intros E; injection E as <- _ _; congruence.
   Qed.
 
+  (** ---------------------------------------------------------------- the coroutine in pieces *)
+
+  (** resume the suspended coroutine until it finishes *)
+  Fixpoint drive (fuel : nat) (s : st) (outs : list tout) : outcome * st * list tout :=
+    match fuel with
+    | O => (OFuel, s, outs)
+    | S f =>
+        let '(o, s1, outs1) := step T s AwaitResume outs in
+        match o with OPending => drive f s1 outs1 | _ => (o, s1, outs1) end
+    end.
+
+  Definition await_in_pieces (s : st) (outs : list tout) : outcome * st * list tout :=
+    let '(o, s1, outs1) := step T s AwaitBegin outs in
+    match o with OPending => drive (length outs) s1 outs1 | _ => (o, s1, outs1) end.
+
+  Lemma do_query_await s b outs :
+    do_query T (set_await s b) outs =
+    (let '(o, s1, outs1) := do_query T s outs in (o, set_await s1 b, outs1)).
+  Proof.
+    unfold do_query. cbn [s_status set_await]. destruct (tb_guard T (s_status s)); try reflexivity.
+    unfold do_request. cbn [s_job s_log set_await]. destruct (http_request T outs) as [[res n] rest].
+    destruct res; try reflexivity.
+    cbn [from_json s_status set_log]. destruct (tb_store T (tb_status T (r_status r))); reflexivity.
+  Qed.
+
+  Lemma do_query_not_pending s outs o s' outs' : do_query T s outs = (o, s', outs') -> o <> OPending.
+  Proof.
+    intros Q. apply do_query_cases in Q as [[_ [-> _]]|[[_ [-> _]]|[_ [res [n [_ Q]]]]]]; try discriminate.
+    cbn zeta in Q. destruct res; destruct Q as [-> _]; discriminate.
+  Qed.
+
+  Lemma drive_poll fuel : forall s outs ab s1 outs1,
+    poll T fuel s outs = (ab, s1, outs1) -> ab <> Some OFuel ->
+    drive fuel (set_await s true) outs =
+    (match ab with
+     | None => OResults (if tb_tail_a T (s_status s1) then s_results s1 else None)
+     | Some o => o
+     end, set_await s1 false, outs1).
+  Proof.
+    induction fuel as [|f IH]; intros s outs ab s1 outs1 P NF; cbn [poll] in P.
+    - injection P as <- _ _. contradiction.
+    - cbn [drive step s_await set_await]. unfold await_iter. rewrite do_query_await.
+      destruct (do_query T s outs) as [[o s2] outs2] eqn:Q.
+      pose proof (do_query_not_pending _ _ _ _ _ Q) as NP.
+      destruct o; try (injection P as <- <- <-; reflexivity); try contradiction.
+      destruct (tb_terminal T s0).
+      + injection P as <- <- <-. reflexivity.
+      + change (set_await (add_sleep (set_await s2 true)) true) with (set_await (add_sleep s2) true).
+        apply IH; assumption.
+  Qed.
+
+  (** running wait_for_results in one piece is the same as starting it and resuming it at each of its
+      await points until it finishes: same outcome, same state, same requests, same consumed outcomes *)
+  Theorem await_split s outs o s' outs' :
+    s_await s = false -> step T s Await outs = (o, s', outs') ->
+    await_in_pieces s outs = (o, set_await s' false, outs').
+  Proof.
+    intros Aw E. cbn [step] in E. rewrite Aw in E. unfold await_in_pieces. cbn [step]. rewrite Aw.
+    unfold do_results in E. destruct (tb_fast_a T (is_some (s_results s)) (s_status s)).
+    - injection E as <- <- <-. destruct s; cbn in *; subst; reflexivity.
+    - destruct (poll T (S (length outs)) s outs) as [[ab s1] outs1] eqn:P.
+      pose proof (poll_fuel _ _ _ _ _ _ (Nat.lt_succ_diag_r _) P) as NF.
+      cbn [poll] in P. unfold await_iter.
+      destruct (do_query T s outs) as [[o2 s2] outs2] eqn:Q.
+      pose proof (do_query_not_pending _ _ _ _ _ Q) as NP.
+      destruct o2; try (injection P as <- <- <-; injection E as <- <- <-; reflexivity); try contradiction.
+      destruct (tb_terminal T s0).
+      + injection P as <- <- <-. injection E as <- <- <-. reflexivity.
+      + assert (Hl : (length outs2 <= length outs)%nat).
+        { apply do_query_cases in Q as [[_ [_ [_ ->]]]|[[_ [_ [_ ->]]]|[_ [res [n [H _]]]]]]; try lia.
+          apply http_request_consumes in H as [H _]. exact H. }
+        (* the remaining fuel of poll is [length outs]; drive is started with the same amount *)
+        pose proof (drive_poll _ _ _ _ _ _ P NF) as D.
+        change (set_await (add_sleep s2) true) with (set_await (add_sleep s2) true) in D.
+        rewrite D. destruct ab; injection E as <- <- <-; reflexivity.
+  Qed.
+
 End Life.
